@@ -6,6 +6,7 @@ import sys; sys.path.insert(0,'/verif')
 from vk.assemble import assemble
 u=assemble('/verif/units/%s.vrs'%sys.argv[1],'/verif/build/%s.rs'%sys.argv[1])
 print(u.rule_counts)
+if u.lost: print('LOST REGIONS:', u.lost)
 PY
 [ $? -eq 0 ] || exit 2
 cd build && verus $1.rs --output-json --time --multiple-errors 50 --num-threads 8 > $1.json 2> $1.err; echo "exit=$?"; head -${2:-80} $1.err; python3 -c "
